@@ -54,9 +54,9 @@ def binregions(rng, q):
     return pts
 
 def c14_priority(rng, tier, env):
-    """cases C14 replays on every build variant: fib/fib2/lucnum/lucnum2 for every n up to 1300 (their code has branches compiled only where a
+    """cases C14 replays on every build variant: fib/fib2/lucnum/lucnum2 for every n up to 800 (their code has branches compiled only where a
     native addlsh1_n / sublsh1_n kernel exists, and the failing n are those where F[k] has just crossed a limb boundary: about 1% of all n, A98)"""
-    for n in range(0, 1300): yield ('fib', n, 0)
+    for n in range(0, 800): yield ('fib', n, 0)
 
 def specs(rng, tier, wid, nw, env):
     q = tier == 'quick'; th = env.th
